@@ -382,6 +382,9 @@ func CmdRecord(args []string, seed int64) int {
 		r := rand.New(rand.NewSource(seed*1000003 + int64(k)))
 		g := p.gen(r, k)
 		sc := Generate(r, g, rec)
+		if len(g.Weights) >= 13 {
+			rec.Stats["dags_with_13_or_more_validators"]++
+		}
 		nev := 0
 		for _, ep := range sc.Epochs {
 			nev += len(ep.Events)
